@@ -104,7 +104,12 @@ def w1(prog, ctx):
             else:
                 ctx.ok("W1", "%s:%d" % (LRC, ret[0].lineno), "%s.%s() == %s as documented" % (m, flag, DOC_FLAGS[m][flag]))
     # CountingStrategyFlags wires each flag to its own method
-    fl = prog.func(LRC, "CountingStrategyFlags.__init__")
+    # the object that holds the use_* flags wires each flag to its own method of the strategy
+    fls = [f_ for m_, q_, f_ in prog.all_functions() if m_.rel == LRC and q_.endswith(".__init__")
+           and any(isinstance(st, ast.Assign) and (dotted(st.targets[0]) or "").startswith("self.use_") for st in walk_no_nested(f_))]
+    if len(fls) != 1:
+        raise AnalysisError("the constructor that sets the use_* strategy flags was not found (%d candidates)" % len(fls))
+    fl = fls[0]
     for st in walk_no_nested(fl):
         if isinstance(st, ast.Assign) and (dotted(st.targets[0]) or "").startswith("self.use_"):
             want = dotted(st.targets[0])[len("self.use_"):]
@@ -115,7 +120,7 @@ def w1(prog, ctx):
     # weight functions
     npaths = 0
     for fname, kpos in (("process_ambiguous", 1), ("process_inconsistent", 2)):
-        f = prog.func(LRC, "ReadWeightCounter." + fname)
+        f = prog.func_inlined(LRC, "ReadWeightCounter." + fname)        # helpers of the class expanded in place
         kname = f.args.args[kpos].arg
         for p in flow.paths(f):
             npaths += 1
@@ -212,8 +217,14 @@ def w2(prog, ctx):
                 continue
             rd = reaching_defs(f, wexpr.id, st, local_defs(f))
             reach = [d_[2] for d_ in rd if d_[0] == "assign"]
+            # a constant 1.0 that reaches the increment from a branch in which the feature list has one element is the same weight
+            # as 1/len(features) there: such definitions are accepted next to the computed one
+            unit = [r_ for r_ in reach if isinstance(r_.value, ast.Constant) and r_.value.value == 1
+                    and any(not pol and isinstance(t, ast.Compare) and src(t).startswith("len(") and src(t).endswith("> 1")
+                            for t, pol in flow.guard_facts(r_, stop=f))]
+            reach = [r_ for r_ in reach if r_ not in unit]
             if len(reach) != 1:
-                ctx.fail("W2", c, fq, src(c), "weight %s has %d reaching definitions here" % (wexpr.id, len(reach)))
+                ctx.undecided("W2", c, fq, "weight %s has %d reaching definitions at %s" % (wexpr.id, len(reach), src(c)[:60]))
                 continue
             d = reach[0].value
             ok_def = isinstance(d, ast.Call) and (call_name(d) or "").startswith("self.read_counter.process_") and d.args \
@@ -240,7 +251,7 @@ def w2(prog, ctx):
                 ctx.fail("W2", c, fq, src(c), "%d increments in one iteration of the split loop" % len(same_loop_incs))
                 continue
             ctx.ok("W2", "%s:%d" % (LRC, c.lineno), "%s: 1/len(%s) added once per element of `for %s in %s`" % (fname, S, tgt, S))
-    ctx.floor("W2", "feature_counter.inc sites", n, 5)
+    ctx.floor("W2", "feature_counter.inc sites", n, 3)
 
 
 def _truth(expr, env):
@@ -305,11 +316,14 @@ def w3(prog, ctx):
         # the confirmed feature is the one that was counted
         incs = [c for c in st._parent.body if isinstance(c, ast.Expr)] if hasattr(st._parent, "body") else []
     # dump: zeroing only for features not confirmed
-    d = prog.func(LRC, "AssignedFeatureCounter.dump")
-    zero = [s for s in walk_no_nested(d) if isinstance(s, ast.Assign) and isinstance(s.targets[0], ast.Subscript)
-            and isinstance(s.value, ast.Constant) and s.value.value in (0, 0.0) and not isinstance(s.value.value, bool)]
+    d = prog.func_inlined(LRC, "AssignedFeatureCounter.dump")         # helpers of the class expanded in place
+    def _is_zero(v):
+        return isinstance(v, ast.Constant) and v.value in (0, 0.0) and not isinstance(v.value, bool)
+    zero = [s for s in walk_no_nested(d) if isinstance(s, ast.Assign) and (
+            (isinstance(s.targets[0], ast.Subscript) and _is_zero(s.value))
+            or (isinstance(s.value, ast.Call) and call_name(s.value) == "dict.fromkeys" and len(s.value.args) == 2 and _is_zero(s.value.args[1])))]
     if len(zero) != 1:
-        ctx.fail("W3", d, d._qualname, "zeroing", "expected exactly one statement zeroing counts in dump()")
+        ctx.undecided("W3", d, d._qualname, "found %d statements zeroing counts in dump() (helpers inlined), expected one" % len(zero))
     else:
         facts = flow.guard_facts(zero[0], stop=d)
         # which feature's cells are zeroed: the key K of self.feature_counter[K] in the (alias-resolved) target
@@ -345,11 +359,31 @@ def w4(prog, ctx):
         branch = branch.orelse[0] if len(branch.orelse) == 1 and isinstance(branch.orelse[0], ast.If) else None
     # merge_counts prints the three stat lines from the summed per-chromosome stats
     m = prog.func("src/file_utils.py", "merge_counts")
-    t = src(m)
-    if '"__ambiguous", "__no_feature", "__not_aligned"' not in t.replace("'", '"'):
-        ctx.fail("W3", m, "merge_counts", "stat lines", "merge_counts no longer writes __ambiguous/__no_feature/__not_aligned in that order")
+    from ..engine import staticeval
+    mod = prog.module("src/file_utils.py")
+    consts = {}
+    for name_, v_ in mod.assigns.items():
+        try:
+            consts[name_] = staticeval.evaluate(v_, dict(consts))
+        except (staticeval.NoEval, Exception):
+            pass
+    orders = []
+    for loop in (l for l in walk_no_nested(m) if isinstance(l, ast.For) and isinstance(l.target, ast.Name)):
+        writes = [c for c in walk_no_nested(loop) if isinstance(c, ast.Call) and isinstance(c.func, ast.Attribute) and c.func.attr == "write"
+                  and loop.target.id in {n.id for n in ast.walk(c) if isinstance(n, ast.Name)}]
+        if not writes:
+            continue
+        try:
+            orders.append((loop, [str(x) for x in staticeval.evaluate(loop.iter, dict(consts))]))
+        except (staticeval.NoEval, TypeError, IndexError, KeyError):
+            orders.append((loop, None))
+    if len(orders) != 1 or orders[0][1] is None:
+        ctx.undecided("W3", m, "merge_counts", "the loop that writes the statistics lines (and the constant list it walks) was not found")
+    elif orders[0][1] != ["__ambiguous", "__no_feature", "__not_aligned"]:
+        ctx.fail("W3", orders[0][0], "merge_counts", "stat lines %s" % orders[0][1],
+                 "merge_counts writes the statistics lines %s; the tables end with __ambiguous, __no_feature, __not_aligned in that order" % orders[0][1])
     else:
-        ctx.ok("W3", "src/file_utils.py:%d" % m.lineno, "merge_counts writes the three stat lines from summed stats")
+        ctx.ok("W3", "src/file_utils.py:%d" % m.lineno, "merge_counts writes the three stat lines from summed stats, in the documented order")
 
 
 def w5(prog, ctx):
